@@ -399,6 +399,12 @@ func (s *Server) handleConn(ctx context.Context, conn *Conn, module *Module, pc 
 	// If returning an error, send the error to the client for display, too:
 	defer func() {
 		if err != nil {
+			// The client may be in the middle of sending file data that nobody
+			// reads anymore. Keep consuming it, so that the client gets around
+			// to reading the error message even when the transport does not
+			// buffer (local copies run over io.Pipe): otherwise both ends
+			// block in Write forever.
+			go io.Copy(io.Discard, crd)
 			mpx.WriteMsg(rsyncwire.MsgError, fmt.Appendf(nil, "gokr-rsync [receiver]: %v\n", err))
 		}
 	}()
